@@ -79,9 +79,11 @@ def run_version(args):
         for i in range(n):
             ty = types[i % len(types)]
             ln = rng.choice((0, 1, 2, 5, 20, 60, 100))
-            cb = {"type": ty, "profile": rng.randrange(65536), "cluster": rng.randrange(65536), "srcEp": rng.randrange(256), "dstEp": rng.randrange(256),
-                  "group": rng.randrange(65536), "apsSeq": rng.randrange(256), "lqi": rng.choice((0, 1, 127, 128, 255, rng.randrange(256))),
-                  "rssi": rng.choice((-128, -1, 0, 127, rng.randrange(-128, 128))), "sender": rng.randrange(65536),
+            b16 = lambda: rng.choice((0, 1, 0xFFFF, 0xFFFE, 0x8000, own, rng.randrange(65536), rng.randrange(65536)))   # noqa: boundary values of every field
+            b8 = lambda: rng.choice((0, 1, 255, 254, 128, rng.randrange(256), rng.randrange(256)))   # noqa
+            cb = {"type": ty, "profile": b16(), "cluster": b16(), "srcEp": b8(), "dstEp": b8(),
+                  "group": b16(), "apsSeq": b8(), "lqi": rng.choice((0, 1, 127, 128, 255, rng.randrange(256))),
+                  "rssi": rng.choice((-128, -1, 0, 127, rng.randrange(-128, 128))), "sender": b16(),
                   "msg": [rng.randrange(256) for _ in range(ln)]}
             extra = {"options": rng.randrange(65536), "bindingIndex": rng.randrange(256), "addressIndex": rng.randrange(256),
                      "eui64": [rng.randrange(256) for _ in range(8)], "timestamp": rng.randrange(2 ** 32)}
@@ -93,7 +95,9 @@ def run_version(args):
         for i in range(max(40, n // 2)):
             st = i % 8 if i < 64 else rng.randrange(256)
             dec = (i // 8) % 4 if i < 64 else rng.choice((0, 1, 2, 3, rng.randrange(256)))
-            cb = {"nwk": rng.randrange(65536), "ieee": [rng.randrange(256) for _ in range(8)], "status": st, "decision": dec, "parent": rng.randrange(65536)}
+            bb = lambda: rng.choice((0, 0xFFFF, 0xFFFE, own, rng.randrange(65536), rng.randrange(65536)))   # noqa
+            cb = {"nwk": bb(), "ieee": rng.choice(([0] * 8, [255] * 8, [rng.randrange(256) for _ in range(8)], [rng.randrange(256) for _ in range(8)])),
+                  "status": st, "decision": dec, "parent": bb()}
             got_p.clear(); got_j.clear()
             raised = await feed(encode_join(cb), ID_TCJOIN)
             events.append({"a": "join", "ver": ver, "cb": cb, "raised": raised, "packets": [dict(p) for p in got_p], "joins": list(got_j)})
